@@ -24,7 +24,9 @@ VARIABLE inp
 
 \* --------------------------------------------------------------- option-set catalogue
 AllOptIds == {"req", "opt", "def", "defbig", "options", "optbig", "rcc", "roo", "rco", "roc", "rhi", "rlo",
-              "optrange", "str", "stropts", "defopts", "defrange", "env5", "env300"}
+              "optrange", "str", "stropts", "defopts", "defrange", "env5", "env300",
+              \* env= / default= combined with range= / options=: value inside, on the boundary, outside
+              "er_m1", "env_0", "er_1", "er_5", "er_7", "er_300", "eoc_1", "eoc_5", "eo_1", "eo_7", "defz", "defrout", "defoout"}
 
 DefaultFor(k) == CASE k \in IntKinds -> "5" [] k \in FloatKinds -> "1.5" [] k = "bool" -> "true"
                    [] k = "string" -> "abc" [] OTHER -> "10s"
@@ -35,6 +37,7 @@ Applicable(id, k) ==
     [] id \in {"defbig", "rcc", "roo", "rco", "roc", "rhi", "rlo", "optrange", "defrange"} -> k \in NumKinds
     [] id = "optbig" -> k \in IntKinds
     [] id \in {"options", "defopts", "stropts"} -> k \in NumKinds \cup {"string"}
+    [] id \in {"er_m1", "env_0", "er_1", "er_5", "er_7", "er_300", "eoc_1", "eoc_5", "eo_1", "eo_7", "defz", "defrout", "defoout"} -> k \in NumKinds
     [] OTHER -> FALSE
 
 OptFor(id, k) ==
@@ -55,6 +58,19 @@ OptFor(id, k) ==
     [] id = "stropts" -> Opts(FALSE, "", OptionsFor(k), NoRange, TRUE, "")
     [] id = "defopts" -> Opts(FALSE, IF k = "string" THEN "abc" ELSE "5", OptionsFor(k), NoRange, FALSE, "")
     [] id = "defrange" -> Opts(FALSE, "5", {}, Rng("1", "10", TRUE, TRUE), FALSE, "")
+    [] id = "er_m1" -> Opts(FALSE, "", {}, Rng("1", "5", TRUE, TRUE), FALSE, "-1")
+    [] id = "env_0" -> Opts(FALSE, "", {}, NoRange, FALSE, "0")
+    [] id = "er_1" -> Opts(FALSE, "", {}, Rng("1", "5", TRUE, TRUE), FALSE, "1")
+    [] id = "er_5" -> Opts(FALSE, "", {}, Rng("1", "5", TRUE, TRUE), FALSE, "5")
+    [] id = "er_7" -> Opts(FALSE, "", {}, Rng("1", "5", TRUE, TRUE), FALSE, "7")
+    [] id = "er_300" -> Opts(TRUE, "", {}, Rng("1", "5", TRUE, TRUE), FALSE, "300")
+    [] id = "eoc_1" -> Opts(FALSE, "", {}, Rng("1", "5", FALSE, TRUE), FALSE, "1")
+    [] id = "eoc_5" -> Opts(TRUE, "", {}, Rng("1", "5", FALSE, TRUE), FALSE, "5")
+    [] id = "eo_1" -> Opts(FALSE, "", {"1", "5"}, NoRange, FALSE, "1")
+    [] id = "eo_7" -> Opts(FALSE, "", {"1", "5"}, NoRange, FALSE, "7")
+    [] id = "defz" -> Opts(FALSE, "010", {}, NoRange, FALSE, "")
+    [] id = "defrout" -> Opts(FALSE, "7", {}, Rng("1", "5", TRUE, TRUE), FALSE, "")
+    [] id = "defoout" -> Opts(FALSE, "7", {"1", "5"}, NoRange, FALSE, "")
     [] id = "env5" -> Opts(FALSE, "", {}, NoRange, FALSE, "5")
     [] id = "env300" -> Opts(TRUE, "", {}, NoRange, FALSE, "300")
 
@@ -304,6 +320,7 @@ SaneField(k, o, doc, src) ==
      /\ T_OptionalZero(o, doc, a)
      /\ T_Constraint(o, doc, a)
      /\ (doc.d = "lit" /\ o.env = "" => T_NeverWrapped(k, doc.lit, a))
+     /\ T_EnvConstraint(k, o, a)
      /\ (doc.d = "lit" => T_FitsMonotone(doc.lit))
      /\ (a.ok => a.val.v # "none") /\ (~a.ok => a.alt = NoVal)
 
